@@ -25,7 +25,8 @@ DT_GRID = (
     + ['number:currency']
     + ['hex:1', 'hex:2', 'hex:4', 'hex:20', 'hex:6:2:-', 'hex:4:2:.', 'hex:4:2::', 'hex:4:4:-', 'hex:3:1:|',
        'hex:4:1:+', 'hex:4:2:x', 'hex:2:1:\\', 'hex:2:1:*', 'hex:2:1:?', 'hex:4:2:(', 'hex:4:2:[', 'hex:2:1:a', 'hex:2:1:^',
-       'hex:2:1:$', 'hex:2:1:{']
+       'hex:2:1:$', 'hex:2:1:{', 'hex:4:1:&', 'hex:2:1:#', 'hex:2:1:~', 'hex:2:1:%', 'hex:2:1:!', 'hex:2:1:<',
+       'hex:2:1:"', "hex:2:1:'", 'hex:2:1:/', 'hex:2:1:=', 'hex:2:1:@', 'hex:2:1:]', 'hex:2:1:}', 'hex:2:1:)', 'hex:2:1:é']
     + ['string:%d:%s%s' % (n, c, f) for n in (0, 1, 3, 255) for c in ('mc', 'lc', 'uc') for f in ('', ':u', ':r', ':ru')]
     + ['base64:0', 'base64:1', 'base64:3', 'base64:4', 'base64:10']
     + ['enum:a:b', 'enum:yes', 'enum:a:ab:abc', 'enum:A:a', 'enum:true:false:x-y']
